@@ -312,6 +312,13 @@ fn run_history(prop: &str, c: &HistCase, enforce: bool, ctx: &mut Ctx) -> V<Vec<
             }
         }
         let mutating = matches!(op, Op::Add { .. } | Op::Remove { .. } | Op::SaveReopen { .. });
+        if mutating && enforce && ctx.states.len() < 256 {
+            let mut h = 0xcbf2_9ce4_8422_2325u64;
+            for (id, b) in &st.model {
+                h = (h ^ id.wrapping_mul(0x9E37_79B9_7F4A_7C15)).rotate_left(17) ^ crate::rng::hash_bytes(b.len() as u64, &b[..b.len().min(64)]);
+            }
+            ctx.states.push(h ^ (st.mem.len() as u64) << 48);
+        }
         if mutating && check_store {
             check_store_stats(&st, i)?;
         }
